@@ -1,7 +1,23 @@
 """Case generator for C09.  All randomness comes from the rng handed in."""
 import hashlib
 
-ALGS = ['md5', 'sha1', 'sha256', 'sha512', 'sha3_224']
+import hashlib as _hl
+
+
+def _known(names):
+    out = []
+    for a in names:
+        try:
+            _hl.new(a)
+            out.append(a)
+        except Exception:
+            pass
+    return out
+
+
+# the documented domain of hashalg is "whatever hashlib.new() accepts": besides the usual attribute names also names that
+# hashlib.new() knows but that are NOT attributes of the module (OpenSSL spellings, truncated SHA-512 variants, ...)
+ALGS = ['md5', 'sha1', 'sha256', 'sha512', 'sha3_224'] + _known(['sha512_256', 'SHA256', 'sha512_224', 'sm3', 'md5-sha1'])
 SECRETS = ['sec', 'another secret', 'sécrèt€', 'x' * 40, '']
 HOSTS = ['example.com', 'www.example.com', 'a.b.example.com:8080', 'localhost', '127.0.0.1:6543']
 IPS4 = ['0.0.0.0', '127.0.0.1', '10.1.2.3', '192.168.255.254', '8.8.8.8']
@@ -290,7 +306,7 @@ def gen_garbage(rng):
     return rng.choice(['', '"', '""', '!', '!!', '%', 'None', '0' * 200, 'é' * 50])
 
 
-FOREIGN_UD = ['userid_type:int', 'userid_type:unicode', 'userid_type:b64unicode', 'userid_type:b64str',
+FOREIGN_UD = ['userid_type:int', 'userid_type:unicode', 'userid_type:unicode', 'userid_type:unicode', 'userid_type:b64unicode', 'userid_type:b64str',
               'userid_type:float', '', 'x|userid_type:int|y', 'userid_type:b64str|userid_type:int',
               'userid_type:int|userid_type:int', 'a!b', '|', 'userid_type:', 'userid_type:b64unicode|userid_type:b64str',
               'userid_type:b64str|userid_type:unicode', 'userid_type:b64str|userid_type:b64str']
